@@ -8,7 +8,7 @@
 (* A state is a straight-line program of up to MaxInstr LOAD_CONST          *)
 (* instructions, each with a constant from {1, True, 2} (1 and True are     *)
 (* equal under Python's == but are different constants) and an override     *)
-(* from -1 (none) .. MaxOvr.  The reference encoder (Encode.tla) is run on  *)
+(* from {-2 (a negative slot), -1 (none)} \cup 0..MaxOvr.  The reference encoder (Encode.tla) is run on  *)
 (* it; OverridesSafe says: it raises, or every operand is inside the table  *)
 (* and the table entry is exactly the given constant.  Every state is       *)
 (* printed and replayed on the real library (hand-built CodeData).         *)
@@ -27,7 +27,8 @@ KM == (50 :> <<150, 900>>) @@ (51 :> <<151, 900>>) @@ (52 :> <<152, 902>>) @@ (5
 
 Init == prog = <<>>
 Add(c, o) == Len(prog) < MaxInstr /\ prog' = Append(prog, <<c, o>>)
-Next == \E c \in Consts, o \in -1..MaxOvr : Add(c, o)
+\* -1 is "no override"; -2 is a real, negative position (hand-edited data): never a valid slot
+Next == \E c \in Consts, o \in -2..MaxOvr : Add(c, o)
 Spec == Init /\ [][Next]_vars
 
 Data ==
